@@ -48,7 +48,7 @@ def ob_hist_rules(m1: int, dom1: int, h1: int, m2: int, dom2: int, h2: int, pm1:
 
 # ------------------------------------------------------------------ API-level history / option pool
 
-POOL = ["tomorrow 8pm", "Zahnarzt Morgen 9 Uhr", "zahnarzt morgen 9 uhr", "9-5", "friday morning", "gargelbabel", "meet monday", "8:30 h pm", "29.2.", "meet #tag monday"]
+POOL = ["tomorrow 8pm", "Zahnarzt Morgen 9 Uhr", "zahnarzt morgen 9 uhr", "9-5", "friday morning", "gargelbabel", "meet monday", "8:30 h pm", "meet monday #tag", "meet #tag monday"]
 TS_POOL = [datetime(2018, 3, 7, 12, 43), datetime(2023, 1, 31, 23, 59, 59), datetime(2024, 2, 29, 0, 0)]
 DEPTHS = [0, 1, 10]
 
